@@ -243,6 +243,10 @@ class SSPOC(BaseEstimator):
         else:
             self.classifier.fit(np.matmul(x, self.basis_matrix_inverse_.T), y)
 
+        # The classifier now expects basis coordinates, not sensor measurements
+        # (update_sensors sets this flag again if it refits on sensor columns).
+        self.refit_ = False
+
         w = np.squeeze(self.classifier.coef_).T
 
         n_classes = len(set(y[:]))
